@@ -445,6 +445,8 @@ def strip_private(d):
 class InterleavedCheck(PropertyCheck):
     which = "C04"
     props_modules = []
+    extra_build = ["KDVerif.Driver.Interleaved"]
+    driver_main = "mains/Interleaved.lean"
     anchored = ["kappadata/samplers/interleaved_sampler.py"]
     assumptions = [
         "main sampler iteration yields len(sampler) indices and is a function of the epoch passed to set_epoch (oracle `main`)",
